@@ -78,6 +78,9 @@ PROPS["C05"] = dict(
     legs=[
         Leg("rules", RT_SRC, "fast", ["--prop", "C05", "--depth", "5"], ["--prop", "C05", "--depth", "7"], timeout_thorough=14000),
         Leg("rules2chips", RT_SRC, "fast", ["--prop", "C05", "--chips", "2", "--depth", "4"], ["--prop", "C05", "--chips", "2", "--depth", "6"], timeout_thorough=14000),
+        # percussion only: both drum keys, their releases, 12/40 ms of time, the pedal of the drum channel - the 30 ms minimal drum life time needs several hits staggered in time
+        Leg("drums_deep", RT_SRC, "fast", ["--prop", "C05", "--only-ops", r"noteOn\(9,6[02],100|noteOff\(9,6[02]\)|generate\(|cc\(9,64,|cc\(9,123", "--depth", "8"],
+            ["--prop", "C05", "--only-ops", r"noteOn\(9,6[02],100|noteOff\(9,6[02]\)|generate\(|cc\(9,64,|cc\(9,123|panic", "--depth", "10"], timeout_thorough=14000),
     ],
     rule="BFS over all histories of note-on/off, CC64/66/120/121/123, panic, reset-state, program change and 12/40 ms time steps on a melodic and a percussion channel; state = implementation snapshot + reference-model state",
     assumptions=RT_ASSUME,
@@ -120,7 +123,9 @@ PROPS["C02"] = dict(
     level_text="All listed byte strings go through WOPN_LoadBankFromMem / WOPN_LoadInstFromMem / opn2_openBankData on a block of exactly the given size; all 36 instrument fields are swept over their full ranges through opn2_setInstrument and played "
                "(keys x bends x bend ranges x volume models x brightness x melodic/percussion). Oracle: defined return values, no sanitizer report, every case inside its CPU budget.",
     level_note="byte strings outside the families (e.g. several coordinated wrong fields) are not covered; allocation failure paths are not exercised; real-core renders use 3 cores in quick and 8 in thorough",
-    legs=[Leg("bank", ["models/c02_bank.cpp"], "asan", [], [], timeout_quick=2400)],
+    legs=[Leg("bank", ["models/c02_bank.cpp"], "asan", [], [], timeout_quick=2400),
+          # a loaded bank manipulated through the bank API (create / remove / reserve on ids that collide in the bank map) and then played: every call must come back; explicit-state search to closure
+          Leg("bankops", ["models/c03_api.cpp"], "asan", ["--subset", "banks", "--as", "C02", "--depth", "7"], ["--subset", "banks", "--as", "C02", "--depth", "9"], timeout_thorough=14000)],
     rule="one case per (family, index); non-trivial when the loader accepted the string or the instrument was installed and the whole play matrix / render completed",
     assumptions=E2_ASSUME + ["null chips for the play matrix (the library layer computes registers; cores are exercised by the render family)"],
 )
